@@ -33,7 +33,7 @@ PROP = dict(
               'Fit.C08.C08_reader_error_loop', 'Fit.C08.C08_raw_chunk_indep',
               'Fit.C08.C08_request_bound_ops', 'Fit.C08.C08_chunk_indep_ops', 'Fit.C08.C08_chunk_indep_ops_contiguous',
               'Fit.C08.C08_reader_error_ops'],
-    families=[dict(name='readbuffer', spec=True), dict(name='dfrag', spec=True, prop=True), dict(name='dhfrag', spec=True, prop=True)],
+    families=[dict(name='readbuffer', spec=True), dict(name='dfrag', spec=True, prop=True), dict(name='dhfrag', spec=True, prop=True), dict(name='rawfrag', spec=True)],
     # link theorems between the decoder models this property composes with (additive: checklib/props/_links.py)
     extra=with_links(_extra, ['Fit.Links.Link_decprog_eq_api',
                              'Fit.Links.Link_chunk_indep_api',
@@ -61,6 +61,6 @@ PROP = dict(
 
 TEXT = dict(
     technique='Lean 4 proof: exact model of readbuffer.go over arbitrary read schedules, window invariant, refinement of the exact-n reader for every schedule/buffer size/prior buffer state; decoders are programs over ReadN (free monad), so refinement lifts to every decode outcome by one simulation theorem; differential correspondence of buffer, decoder and CheckIntegrity over fragmenting and failing readers',
-    text='Theorems: C08_readN_refines (any clean schedule, any buffer size, any prior buffer state: ReadN sequence = exact-n reader, errors up to the EOF class, exactly equal unless the stream ends inside a request), C08_readN_sound (any reader incl. failing ones: never panics, success only with exactly the next n bytes), C08_request_bound (every decoder request ≤ reservedbuf = 765; a short read ends the run), C08_chunk_indep_partial / C08_chunk_indep (decode outcome — events, headers, CRCs, error — equal for any two clean schedules and buffer sizes; up to EOF class in general, exactly when not truncated inside a request), C08_full_false (the strict statement fails: KF-C08-1 witness decided in the kernel), C08_reader_error (a reader error before the requested bytes are delivered is returned by ReadN), C08_reader_error_loop / C08_reader_error_decode (over any reader and buffer size, a reader failure handed to the decoder is the error the Next/Decode loop — and a single Decode — ends with; full strength since the fix 7644d6f of KF-C08-2), C08_checkIntegrity_indep, C08_chunk_indep_reused_buffer, C08_raw_chunk_indep (clients of io.ReadFull: exact incl. error class). EVERY ENTRY POINT: C08_request_bound_ops / C08_chunk_indep_ops / C08_chunk_indep_ops_contiguous (for every list of calls Decode / DecodeWithContext live, cancelled before, cancelled after k records / PeekFileHeader / PeekFileId / Discard / Next / final CheckIntegrity on one decoder: any two clean fragmentations, buffer sizes and prior buffer states give the same per-call results and listener events - up to the EOF class, exactly when the stream does not end inside a request; in particular those of the contiguous reader) and C08_reader_error_ops (a reader failure handed to the decoder during any call ends the reading and is the decoder\'s error). Value level: the dfrag answer carries m= - the digest of every message\'s VALUES as handed to the listener, which the model rebuilds from the field bytes of its message events with the decoder-API model\'s own functions (apiOf, standard factory, expansion off). Tie: families readbuffer (hook-driven, enumerated split points around the reserved-prefix boundary, random schedules × sizes × request sequences, buffer re-use) dfrag (real Decoder / CheckIntegrity over 1-byte, random, DataErrReader-style, failing-at-every-offset readers vs model and vs contiguous decode at value level) and dhfrag (call histories over the same readers).',
+    text='Theorems: C08_readN_refines (any clean schedule, any buffer size, any prior buffer state: ReadN sequence = exact-n reader, errors up to the EOF class, exactly equal unless the stream ends inside a request), C08_readN_sound (any reader incl. failing ones: never panics, success only with exactly the next n bytes), C08_request_bound (every decoder request ≤ reservedbuf = 765; a short read ends the run), C08_chunk_indep_partial / C08_chunk_indep (decode outcome — events, headers, CRCs, error — equal for any two clean schedules and buffer sizes; up to EOF class in general, exactly when not truncated inside a request), C08_full_false (the strict statement fails: KF-C08-1 witness decided in the kernel), C08_reader_error (a reader error before the requested bytes are delivered is returned by ReadN), C08_reader_error_loop / C08_reader_error_decode (over any reader and buffer size, a reader failure handed to the decoder is the error the Next/Decode loop — and a single Decode — ends with; full strength since the fix 7644d6f of KF-C08-2), C08_checkIntegrity_indep, C08_chunk_indep_reused_buffer, C08_raw_chunk_indep (clients of io.ReadFull: exact incl. error class). EVERY ENTRY POINT: C08_request_bound_ops / C08_chunk_indep_ops / C08_chunk_indep_ops_contiguous (for every list of calls Decode / DecodeWithContext live, cancelled before, cancelled after k records / PeekFileHeader / PeekFileId / Discard / Next / final CheckIntegrity on one decoder: any two clean fragmentations, buffer sizes and prior buffer states give the same per-call results and listener events - up to the EOF class, exactly when the stream does not end inside a request; in particular those of the contiguous reader) and C08_reader_error_ops (a reader failure handed to the decoder during any call ends the reading and is the decoder\'s error). Value level: the dfrag answer carries m= - the digest of every message\'s VALUES as handed to the listener, which the model rebuilds from the field bytes of its message events with the decoder-API model\'s own functions (apiOf, standard factory, expansion off). Tie: families readbuffer (hook-driven, enumerated split points around the reserved-prefix boundary, random schedules × sizes × request sequences, buffer re-use) dfrag (real Decoder / CheckIntegrity over 1-byte, random, DataErrReader-style, failing-at-every-offset readers vs model and vs contiguous decode at value level) dhfrag (call histories over the same readers) and rawfrag (the real RawDecoder - io.ReadFull straight on the reader - on streams cut at every offset, each cut delivered in one Read together with io.EOF, with its last byte alone together with io.EOF, one byte per Read, in random partitions; reference: bytes.NewReader).',
     note='Proved about the model; tied by differential testing. Full strength (identical error class for truncated streams) is false on the pinned tree: io.EOF vs io.ErrUnexpectedEOF depends on fragmentation (F12, pinned by a test → open finding KF-C08-1). KF-C08-2 (Next() swallowed a reader failure) was found by this check and fixed in /repo (7644d6f).',
 )
